@@ -25,7 +25,7 @@ RULE = ('each run = one history-machine world (tree + prior Manifest state + rou
         'with an injected OSError at exactly that call; non-trivial = an update ran; distinct = distinct '
         'event-log digest of the fault-free run; the evidence counts faulted executions separately')
 PLAN = {'quick': {'n': 120, 'budget_s': 150, 'block': 3, 'det': 3, 'run_timeout_s': 900},
-        'thorough': {'n': 3000, 'budget_s': 1500, 'block': 6, 'det': 4, 'run_timeout_s': 1800}}
+        'thorough': {'n': 3000, 'budget_s': 2400, 'block': 6, 'det': 4, 'run_timeout_s': 1800}}
 ASSUMPTIONS = ['crash consistency of a half-written Manifest is not part of the property: after a write-side fault only "nothing but Manifest files was touched" is demanded',
                'a file counts as a Manifest file by name (Manifest, Manifest.*)']
 
